@@ -52,7 +52,8 @@ Proof.
   apply andb_true_iff in H as [H Hdts]. apply andb_true_iff in H as [H Hdt].
   apply andb_true_iff in H as [Hok Hname].
   apply N.leb_le in Hdata, Hname. apply N.ltb_lt in Hdts.
-  unfold encok_attribute in Hok. apply andb_true_iff in Hok as [Hok _]. apply andb_true_iff in Hok as [Hne _].
+  unfold encok_attribute in Hok. apply andb_true_iff in Hok as [Hok _]. apply andb_true_iff in Hok as [Hok _].
+  apply andb_true_iff in Hok as [Hne _].
   apply negb_true_iff, Nat.eqb_neq in Hne.
   pose proof (size_dataspace_bound _ Hds) as Hdss.
   destruct x as [name dt ds dat]; cbn [at_name at_dt at_ds at_data] in *.
